@@ -64,7 +64,7 @@ class OM:
 class World:
     """Configuration + object models for one executor instance."""
 
-    def __init__(self, rng, ns=1, nid=None, small=False, enum64=False):
+    def __init__(self, rng, ns=1, nid=None, small=False, enum64=False, huge=()):
         self.rng, self.ns = rng, ns
         self.nid = nid if nid is not None else rng.choice([1, 1, 2, 64, 127])
         cfg = Config(nodeid=self.nid, freq=1000, tmrnum=8)
@@ -106,6 +106,11 @@ class World:
         cfg.add(domain(0x2121, 1, 30, d, flags=W)); m[(0x2121, 1)] = OM(0x2121, 1, "dom", W, data=d)
         # and so is a (read-only) domain that holds nothing at the moment, e.g. an empty log
         cfg.add(domain(0x2122, 0, 0, b"", flags=R)); m[(0x2122, 0)] = OM(0x2122, 0, "dom", R, data=b"")
+        # domains beyond 2^16 bytes (content by formula, see the executor's "@seed")
+        for i, sz in enumerate(huge):
+            sd = rng.randrange(256)
+            d = bytes((j * 167 + (j >> 8) * 13 + sd) & 0xFF for j in range(sz))
+            cfg.add(Obj(0x2123, i, RW, "dom", "M", sz, "@%d" % sd)); m[(0x2123, i)] = OM(0x2123, i, "dom", RW, data=d)
         # user type objects: (size, rderr, wrerr, abort)
         usr = [(4, 0, 0, 0), (4, S.ERR["OBJ_READ"], S.ERR["OBJ_WRITE"], 0), (2, S.ERR["OBJ_RANGE"], S.ERR["OBJ_RANGE"], 0),
                (4, S.ERR["OBJ_MAP_TYPE"], S.ERR["OBJ_MAP_TYPE"], 0), (4, S.ERR["OBJ_MAP_LEN"], S.ERR["OBJ_MAP_LEN"], 0),
@@ -495,9 +500,57 @@ def make_upload(rng, o, mode, opts):
     return RC.run(RC.upload_block, o.idx, o.sub, bs, ack_fn=ack, next_blksize_fn=nbs, crc=opts.get("crc", False), lost_fn=opts.get("lost_fn"))
 
 
+HUGE_SIZES = [65535, 65536, 65537, 65536 + 889, 65536 + 21, 65536 + 7, 2 * 65536 + 889, 70000]
+
+
+def c03_huge_work(item, ctx):
+    """Objects beyond 2^16 bytes: block uploads whose remaining length passes through multiples of 65536, and a segmented one."""
+    res = F.Res()
+    kind, idx, n = item
+    rng = random.Random(F.seed_for(ctx["seed"], "C03", kind, idx))
+    sizes = [HUGE_SIZES[(idx * 2 + k) % len(HUGE_SIZES)] for k in range(2)]
+    world = World(rng, ns=1, small=True, huge=sizes)
+    sim = S.Sim(ctx["exes"]["asan"], world.cfg)
+    run = Runner(res, sim, world, "C03")
+    try:
+        for i, sz in enumerate(sizes):
+            o = world.om[(0x2123, i)]
+            cases = [("blk", {"blksize": 127, "ack": "all"}), ("blk", {"blksize": 3, "ack": "all", "vary": False}), ("blk", {"blksize": rng.choice([1, 7, 64, 126]), "ack": "rand", "vary": True})]
+            if ctx["tier"] != "quick" or idx % 4 == 0:
+                cases.append(("normal", {}))
+            for mode, opts in cases:
+                if mode == "blk" and opts.get("blksize") == 3:
+                    # a first block of 3 segments, full blocks from then on: the remainder after the first block is size - 21
+                    coro = RC.run(RC.upload_block, o.idx, o.sub, 3, ack_fn=lambda b, sent: sent, next_blksize_fn=lambda b: 127, crc=False, lost_fn=None)
+                else:
+                    coro = make_upload(rng, o, mode, opts)
+                out = run.transfer(0, coro)
+                res.evals += 1
+                res.counters["uploads_beyond_64k"] += 1
+                desc = "%s upload of %04x:%02x (domain of %d bytes) %s" % (mode, o.idx, o.sub, sz, opts)
+                if out.kind == "deviation":
+                    res.violation("c03/response/%s/%s" % (out.deviation.rule, mode), desc + ": " + out.deviation.desc, sim=sim); return res
+                if out.kind == "abort":
+                    res.violation("c03/aborted/%s/dom/%08x" % (mode, out.code), desc + ": aborted with %08x" % out.code, sim=sim); return res
+                if out.size != sz or out.data != o.bytes():
+                    first_ = next((j for j in range(min(sz, len(out.data))) if o.data[j] != out.data[j]), min(sz, len(out.data)))
+                    res.violation("c03/data/%s/dom/beyond-64k" % mode, desc + ": announced %d bytes, delivered %d, first difference at offset %d" % (out.size, len(out.data), first_), sim=sim); return res
+                res.nt("huge", sz, mode, repr(opts))
+        bad = world.check_dump(sim)
+        if bad:
+            res.violation("c03/storage-changed/beyond-64k", "upload changed object storage: %r" % [b[0] for b in bad[:3]], sim=sim)
+    except S.SimDied as e:
+        res.violation("c03/crash/" + e.signature, "executor died: " + e.signature, sim=sim, detail=e.detail[-2000:])
+    finally:
+        sim.close()
+    return res
+
+
 def c03_work(item, ctx):
     if item[0] == "two":
         return c03_two_work(item, ctx)
+    if item[0] == "huge":
+        return c03_huge_work(item, ctx)
     res = F.Res()
     kind, idx, n = item
     exe = ctx["exes"]["asan"]
@@ -550,6 +603,18 @@ def c03_work(item, ctx):
                     return res
                 apply_download(wo, payload)
                 res.counters["uploads_after_a_download"] += 1
+            if kind != "enum" and rng.random() < 0.12:
+                # ... or a transfer the server itself had to end with an abort (wrong toggle in the second segment of a download to an
+                # integer, overrun, ...): nothing of it may show up in the upload
+                lines = server_abort_ending(rng, world, 0)
+                evs_l = sim.batch(lines)
+                last = [d for (t_, cid, dlc, d, f) in S.txs(evs_l[-1]) if cid == world.resp_id(0)]
+                if len(last) == 1 and last[0][0] == 0x80:
+                    res.counters["uploads_after_a_server_abort"] += 1
+                else:
+                    run.step(0, RC.abort_frame(0, 0, 0x08000000))
+                from m_sdo2 import sync_model
+                sync_model(world, sim)
             for rep in range(reps):
                 if mode == "blk" and kind != "enum" and rng.random() < 0.12:
                     # the CAN driver refuses one data segment of the first block (transmit queue full): for the client this is a lost
@@ -598,6 +663,45 @@ def c03_work(item, ctx):
     finally:
         sim.close()
     return res
+
+
+def server_abort_ending(rng, world, sv):
+    """A short dialogue the server itself has to end with an abort: afterwards no transfer is open, whatever it had buffered."""
+    rid = world.req_id(sv)
+    def rx(b):
+        return "rx %x 8 %s" % (rid, (b + bytes(8))[:8].hex())
+    ints = [o for o in world.om.values() if o.kind == "int" and o.writable and o.width in (2, 4)]
+    doms = [o for o in world.om.values() if o.kind == "dom" and o.writable and 8 <= o.size() <= 100]
+    rdoms = [o for o in world.om.values() if o.kind in ("dom", "str") and o.readable and o.size() > 14]
+    k = rng.randrange(6)
+    if k == 0:
+        # segmented download to a basic type in two segments, the second one repeats the toggle bit
+        o = rng.choice(ints); m = RC.mux(o.idx, o.sub)
+        ini = bytes([0x21]) + m + o.width.to_bytes(4, "little") if rng.random() < 0.5 else bytes([0x20]) + m + bytes(4)
+        n1 = rng.randint(1, o.width - 1)
+        return [rx(ini), rx(bytes([(7 - n1) << 1]) + gen.rand_bytes(rng, n1)), rx(bytes([((7 - (o.width - n1)) << 1) | 1]) + gen.rand_bytes(rng, o.width - n1))]
+    if k == 1:
+        # ... or brings more bytes than the object can take
+        o = rng.choice(ints); m = RC.mux(o.idx, o.sub)
+        n1 = rng.randint(1, o.width - 1)
+        return [rx(bytes([0x20]) + m + bytes(4)), rx(bytes([(7 - n1) << 1]) + gen.rand_bytes(rng, n1)), rx(bytes([0x10 | (rng.choice([0, 1]))]) + gen.rand_bytes(rng, 7))]
+    if k == 2:
+        # segmented upload, wrong toggle at the second segment
+        o = rng.choice(rdoms); m = RC.mux(o.idx, o.sub)
+        return [rx(bytes([0x40]) + m), rx(bytes([0x60])), rx(bytes([0x60]))]
+    if k == 3:
+        # block download whose last segment overruns the object
+        o = rng.choice(doms); m = RC.mux(o.idx, o.sub)
+        extra = o.size() + rng.choice([1, 3, 4])
+        nseg = (extra + 6) // 7
+        lines = [rx(bytes([0xC0]) + m)]
+        for q in range(nseg):
+            lines.append(rx(bytes([(q + 1) | (0x80 if q == nseg - 1 else 0)]) + gen.rand_bytes(rng, 7)))
+        lines.append(rx(bytes([0xC1 | ((7 * nseg - extra) << 2)])))
+        return lines
+    if k == 4:
+        return [rx(bytes([0x23]) + RC.mux(0x1000, 0) + gen.rand_bytes(rng, 4))]           # write to a read-only object
+    return [rx(bytes([0x40]) + RC.mux(0x5FFF, 0))]                                        # unknown object
 
 
 def c03_two_work(item, ctx):
@@ -748,6 +852,7 @@ def for_property(prop):
             items += [("sys", i, 60 if q else 300) for i in range(32 if q else 2400)]
             items += [("enum", i, 0) for i in range(4)]
             items += [("two", i, 15 if q else 40) for i in range(32 if q else 1600)]
+            items += [("huge", i, 0) for i in range(4 if q else 16)]
             return items
         m.plan = plan
 
